@@ -124,7 +124,10 @@ ServiceShutdownOnce(o) ==
 ProvidersShutdownOnce(o) == o.prov <= 1 /\ (NormalEnd(o) => o.prov = 1)
 \* "the old service is completely shut down before any component of the new configuration is
 \*  created, so components of two configurations are never live at the same time"
-NoOverlap(o) == \A x, y \in Live(o) : x[1] = y[1]
+\* (a retiring service one of whose components FAILED to shut down is not "completely shut down": nothing of a newer
+\*  configuration may be created after that -- the run loop returns the error instead)
+NoOverlap(o) == /\ \A x, y \in Live(o) : x[1] = y[1]
+                /\ \A x \in o.created : \A g \in o.serr : x[1] <= g
 \* "if the initial or the new configuration cannot be brought up, Run returns the error and every
 \*  component that had been started is shut down"
 FailedBringUpCleansUp(o) == BringUpFailed(o) => o.ret = "err" /\ o.begun \subseteq o.sdone
